@@ -6,6 +6,7 @@ X01  specs/extras/FieldSetRegistry.tla   FieldSet registry / digest / merge
 X02  specs/extras/ThrustModes.tla        ThrustModeValues frozen / mutable machine
 X03  specs/extras/TrajectoryPhases.tla   Trajectory flight-phase machine (set_phase / append / copy / interpolate)
 X04  specs/extras/DimensionSets.tla      Dimensions value algebra (validity, add / remove, order, NetCDF names, abbreviations)
+X05  specs/extras/OpenRules.tla          opening a trajectory file with associated files (decision table)
 """
 
 from __future__ import annotations
@@ -271,6 +272,105 @@ def run_dims(hist):
         return [('machinery', f'{type(e).__name__}: {e}\n{traceback.format_exc()}')]
 
 
+_fs = {}
+
+
+def _open_rules_files():
+    """The file system of OpenRules.tla, built once per worker process (removed at exit)."""
+    if 'dir' in _fs:
+        return _fs['dir']
+    import atexit
+    import shutil
+    import tempfile
+    from pathlib import Path
+
+    from AEIC.storage import Dimension, Dimensions, FieldMetadata, FieldSet
+
+    from .store_replay import _aeic, _register_extras, make_payload
+
+    TS = _aeic()[0]
+    _register_extras()
+    T = Dimensions(Dimension.TRAJECTORY)
+    for n, f in (('vo_a', 'qa'), ('vo_b', 'qb')):
+        if not FieldSet.known(n):
+            FieldSet(n, **{f: FieldMetadata(dimensions=T, field_type=np.int32, description=f, units='u')})
+    d = Path(tempfile.mkdtemp(prefix='x05-'))
+    atexit.register(shutil.rmtree, d, ignore_errors=True)
+
+    class V:
+        FIELD_SETS: list = []
+
+        def __init__(self, **k):
+            for a, b in k.items():
+                setattr(self, a, b)
+
+    def base(name, n, extras=False):
+        ts = TS.create(base_file=d / name)
+        for t in range(1, n + 1):
+            ts.add(make_payload(t, 0, extras=extras))
+        ts.close()
+
+    def assoc(of, name, fsn, field, off):
+        ts = TS.open(base_file=d / of)
+        V.FIELD_SETS = [FieldSet.from_registry(fsn)]
+        ts.create_associated(d / name, [fsn], lambda tr: V(**{field: off + len(tr)}))
+        ts.close()
+
+    base('B1.nc', 2), base('B2.nc', 3), base('BX.nc', 2, extras=True)
+    assoc('B1.nc', 'A1.nc', 'vo_a', 'qa', 100), assoc('B2.nc', 'A2.nc', 'vo_a', 'qa', 200)
+    assoc('BX.nc', 'AX.nc', 'vo_a', 'qa', 300), assoc('B1.nc', 'C1.nc', 'vo_b', 'qb', 400)
+    _fs['dir'] = d
+    return d
+
+
+_REASONS = (('must be distinct', 'not_distinct'), ('does not exist', 'missing'), ('attributes missing', 'not_associated'), ('does not match hash of base', 'other_composition'))
+
+
+def run_open(case):
+    """One OpenRules.tla case on real files."""
+    warnings.simplefilter('ignore')
+    try:
+        from .store_replay import _aeic, npoints_of
+
+        TS = _aeic()[0]
+        d = _open_rules_files()
+        c, o = case['c'], case['o']
+        what = f"open({c['base']}, associated {c['assoc']}, override={c['override']})"
+        try:
+            ts = TS.open(base_file=d / (c['base'] + '.nc'), associated_files=[d / (a + '.nc') for a in c['assoc']], override=bool(c['override']))
+        except ValueError as e:
+            got = next((r for t, r in _REASONS if t in str(e)), f'ValueError: {e}')
+            return [] if got == o['verdict'] else [(f'open:{o["verdict"]}->{got.split(":")[0]}', f'{what} refused as {got!r}; specification: {o["verdict"]!r}')]
+        except Exception as e:
+            return [(f'open:raised-{type(e).__name__}', f'{what} raised {type(e).__name__}: {e}; specification: {o["verdict"]!r}')]
+        try:
+            if o['verdict'] != 'ok':
+                return [(f'open:{o["verdict"]}->ok', f'{what} succeeded; specification: refused as {o["verdict"]!r}')]
+            if len(ts) != len(o['reads']):
+                return [('open:length', f'{what}: {len(ts)} trajectories; specification: {len(o["reads"])}')]
+            for k, want in enumerate(o['reads']):
+                n = npoints_of(k + 1, False)
+                exp = {f: (None if w == 'absent' else (w if w == 'IndexError' else int(w) + n)) for f, w in want.items()}
+                try:
+                    t = ts[k]
+                    got = {'a': getattr(t, 'qa', None), 'b': getattr(t, 'qb', None)}
+                    got = {f: (None if v is None else int(v)) for f, v in got.items()}
+                except IndexError:
+                    got = 'IndexError'
+                except Exception as e:
+                    got = f'raised {type(e).__name__}: {e}'
+                w = 'IndexError' if 'IndexError' in exp.values() else exp
+                if got != w:
+                    return [(f'open:read', f'{what}: trajectory {k} shows {got}; specification: {w}')]
+            return []
+        finally:
+            ts.close()
+    except Exception as e:
+        import traceback
+
+        return [('machinery', f'{type(e).__name__}: {e}\n{traceback.format_exc()}')]
+
+
 def _replay(ctx, hists, fn, label):
     ctx.log(f'{label}: {len(hists)} behaviours')
     for h, devs in zip(hists, pmap(fn, hists)):
@@ -321,4 +421,21 @@ def run_x04(ctx: Ctx):
     _replay(ctx, hs, run_dims, 'dims')
 
 
-EXTRAS = {'X01': run_x01, 'X02': run_x02, 'X03': run_x03, 'X04': run_x04}
+def run_x05(ctx: Ctx):
+    ctx.rule = 'every OpenRules.tla case: 2 base files x every list of 0..2 of 7 files (associated files of the same / another base, of another composition, a base file, a missing path) x override (228)'
+    ctx.assumptions += ['not a listed property: specification growth (DESIGN.md section 10)', 'read mode only; the registry definitions are those the files were written with']
+    tlc.check(ctx, 'extras/OpenRules', 'extras/MC_OpenRules.cfg', workers=4)
+    cs = tlc.check(ctx, 'extras/OpenRules', 'extras/Gen_OpenRules.cfg', workers=1)['emitted']
+    ctx.exhaustive = True
+    ctx.log(f'open: {len(cs)} cases')
+    for c, devs in zip(cs, pmap(run_open, cs, procs=4)):
+        ctx.case_done(('open', c['c']), nontrivial=len(c['c']['assoc']) > 0)
+        if len(c['c']['assoc']) == 2 and c['o']['verdict'] == 'ok':
+            ctx.sample(c, limit=2)
+        for key, desc in devs:
+            if key == 'machinery':
+                raise MachineryError('open worker failed: ' + desc)
+            ctx.violation(key, desc, c)
+
+
+EXTRAS = {'X01': run_x01, 'X02': run_x02, 'X03': run_x03, 'X04': run_x04, 'X05': run_x05}
